@@ -194,6 +194,7 @@ type Session struct {
 	closed bool
 	Tag    string // free-form label set by the harness (thread id)
 	Ctx    context.Context // context of the driver call in progress
+	seqCache map[*Sequence]*seqCacheEntry // CREATE SEQUENCE ... CACHE: per-session pre-allocated values
 }
 
 func (db *DB) NewSession() *Session {
